@@ -427,12 +427,9 @@ func (ee *explainer) explainSeqMappings(mm []mapping) {
 		}
 
 		if rangeLen > 2 {
-			fmt.Fprintf(ee.w, "%s-%s -> %s-%s",
-				ee.names[mm[0].from[0]],
-				ee.names[mm[rangeLen-1].from[0]],
-				ee.names[mm[0].to[0]],
-				ee.names[mm[rangeLen-1].to[0]],
-			)
+			ee.writeRange(mm[0].from[0], mm[rangeLen-1].from[0])
+			ee.w.WriteString(" -> ")
+			ee.writeRange(mm[0].to[0], mm[rangeLen-1].to[0])
 			mm = mm[rangeLen:]
 		} else {
 			ee.writeGlyphList(mm[0].from)
@@ -441,6 +438,18 @@ func (ee *explainer) explainSeqMappings(mm []mapping) {
 			mm = mm[1:]
 		}
 	}
+}
+
+// writeRange writes a range of consecutive glyphs.
+func (ee *explainer) writeRange(first, last glyph.ID) {
+	a, b := ee.names[first], ee.names[last]
+	sep := "-"
+	if b[0] >= '0' && b[0] <= '9' {
+		// Glyphs without a name are given by number.  We need the spaces
+		// here, because "1-3" would be read as the two numbers 1 and -3.
+		sep = " - "
+	}
+	ee.w.WriteString(a + sep + b)
 }
 
 func (ee *explainer) writeGlyph(gid glyph.ID) {
